@@ -186,3 +186,33 @@ fn test_format_keys_are_not_restricted_to_ascii() {
     assert!(format(FormatStyle::StrFormat, "{0[é]}", &args).is_err());
     assert!(format(FormatStyle::StrFormat, "{0[é}", &args).is_err());
 }
+
+#[test]
+#[cfg(feature = "multi_template")]
+fn test_import_target_must_be_a_name() {
+    let mut env = Environment::new();
+    env.add_template("m.txt", "{% macro m() %}x{% endmacro %}")
+        .unwrap();
+    for source in [
+        "{% import 'm.txt' as 1 %}",
+        "{% import 'm.txt' as b - 1 %}",
+        "{% import 'm.txt' as b() %}",
+        "{% import 'm.txt' as 'b' %}",
+    ] {
+        let err = env.template_from_str(source).unwrap_err();
+        assert_eq!(err.kind(), ErrorKind::SyntaxError, "{}", source);
+    }
+    assert_eq!(
+        env.render_str("{% import 'm.txt' as b %}{{ b.m() }}", context! {})
+            .unwrap(),
+        "x"
+    );
+    assert_eq!(
+        env.render_str(
+            "{% set ns = namespace() %}{% import 'm.txt' as ns.b %}{{ ns.b.m() }}",
+            context! {}
+        )
+        .unwrap(),
+        "x"
+    );
+}
